@@ -1,6 +1,6 @@
 (* C02 property theorems: the balanced trees keep their shape invariants after every operation.
    Nothing but statements closed by [exact] and Print Assumptions. *)
-From VF Require Import Common.Base C01.Order C01.SortedMap C01.BinTree C01.RB C01.AVL C01.BTree
+From VF Require Import Common.Base C01.Order C01.CmpSel C01.SortedMap C01.BinTree C01.RB C01.AVL C01.BTree
   C02.Inv C02.Dump C02.RBProofs C02.RBReach C01.AVLRefine C02.AVLProofs C02.DumpProofs C02.BTProofs C02.BTReach C02.BTHeight.
 Local Open Scope Z_scope.
 
@@ -60,6 +60,10 @@ Theorem C02_bt_height_log : forall (K V : Type) (m : nat), (3 <= m)%nat -> foral
   wf K V m 1 d t -> (S d <= Nat.log2 (S (entries_count K V t)))%nat.
 Proof. exact bt_height_log. Qed.
 
+(* every comparator shape the correspondence run builds real trees with satisfies the premise CmpLaws *)
+Theorem C02_comparator_shapes_laws : forall c, CmpLaws (zcmp_of c).
+Proof. exact zcmp_of_laws. Qed.
+
 (* non-vacuity: a concrete reachable red-black tree with both colours and a concrete AVL tree after rotations *)
 Example C02_nonvacuous :
   RB.root (fst (run (RB.step Z Z zcmp 0) (RB.empty Z Z) [Put 1 1; Put 2 2; Put 3 3; Put 4 4; Remove 1]))
@@ -73,6 +77,7 @@ Example C02_nonvacuous :
                                 [Put 1 1; Put 2 2; Put 3 3; Put 4 4; Put 5 5; Put 6 6; Put 7 7; Remove 4])) = true.
 Proof. repeat split; vm_compute; reflexivity. Qed.
 
+Print Assumptions C02_comparator_shapes_laws.
 Print Assumptions C02_rb.
 Print Assumptions C02_avl.
 Print Assumptions C02_bt.
